@@ -10,6 +10,11 @@ for mod in sorted(f[:-4] for f in os.listdir(common.SPEC) if f.endswith(".tla"))
     print("%-16s %s" % (mod, "parses" if good else "FAILS"))
     if not good:
         print(p.stdout[-2000:]); ok = False
+import shutil
+for tool in ("tlc", "tla-sany", "apalache-mc", "tlapm"):
+    print("%-16s %s" % (tool, shutil.which(tool) or "NOT FOUND (the steps that use it are reported as skipped in the evidence)"))
+    if tool in ("tlc", "tla-sany") and shutil.which(tool) is None:
+        ok = False
 sys.path.insert(0, os.path.join(common.VERIF, "harness"))
 import poolrun  # noqa: imports asyncio_taskpool from /repo/src
 print("asyncio_taskpool importable from", common.REPO)
